@@ -561,4 +561,16 @@ theorem C01_d3_counterexample_images_are_crash_images :
   ⟨crashImages_sound _ (cover_prun _ (cover_prun _ cover_created _) _) _ C01_d3_counterexample.1.2.1,
    crashImages_sound _ (cover_prun _ (cover_prun _ cover_created _) _) _ C01_d3_counterexample.2.1⟩
 
+/-- **an acknowledged commit survives every later crash**: along a disciplined trace, once
+`commit()` has returned opstamp `c` (the `ack c` is in the prefix), every crash image at that or
+any later point recovers a commit `j ≥ c` — never an older one — whose files are all sealed. -/
+theorem C01_acked_commit_survives (s0 : PState) (h0 : Inv s0) (t : List Op)
+    (hd : Disciplined s0 t = true) (k : Nat) (c : Nat) (hc : Op.ack c ∈ t.take k) (img : Image)
+    (hi : CrashImage (s0.dir.run (t.take k)) img) :
+    ∃ j, recover img = some j ∧ c ≤ j ∧ j ≤ lastStarted s0.started (t.take k) := by
+  obtain ⟨j, h1, h2, h3, _⟩ := C01_recover_disciplined s0 h0 t hd k img hi
+  exact ⟨j, h1, Nat.le_trans (le_lastAcked_of_mem _ _ c hc) h2, h3⟩
+
+example : Op.ack 2 ∈ demoTrace.take 30 := by decide
+
 end TantivyModel.C01
